@@ -49,6 +49,24 @@ func genCORS(r *rand.Rand, w *W) [][]string {
 	}
 	w.Count("cors-origins-" + itoa(len(og)))
 	hid := 2
+	if r.Intn(3) == 0 {
+		// a route kept alive as the prefix of a longer one is emptied (explicit methods or all) and registered
+		// again with other methods: a preflight for a method it USED to serve must not be granted
+		ops = append(ops, append([]string{"handle", "r", "/a/deep", "h3"}, append(list(), list("GET")...)...))
+		hid = 3
+		if r.Intn(2) == 0 {
+			ops = append(ops, append([]string{"remove", "r", "/a"}, list("GET", "POST")...))
+		} else {
+			ops = append(ops, append([]string{"remove", "r", "/a"}, list()...))
+		}
+		ops = append(ops, []string{"creq", "OPTIONS", "/a", "https://a.com", "GET", ""})
+		hid++
+		ops = append(ops, append([]string{"handle", "r", "/a", "h" + itoa(hid)}, append(list(), list(pick(r, []string{"PUT", "PATCH", "POST"}))...)...))
+		for _, m := range []string{"GET", "POST", "PUT", "HEAD", "DELETE"} {
+			ops = append(ops, []string{"creq", "OPTIONS", "/a", pick(r, []string{"https://a.com", "https://b.com"}), m, ""})
+		}
+		w.Count("shape-emptied-interior-route")
+	}
 	for i := 0; i < 40; i++ {
 		ops = append(ops, []string{"creq", pick(r, reqMethods), pick(r, reqPaths), pick(r, reqOrigins), pick(r, reqACRM), pick(r, reqACRH)})
 		if r.Intn(12) == 0 { // the route's method set changes between preflights
